@@ -115,7 +115,7 @@ func c03R1(c *Ctx) {
 		}
 		if loopBody != nil {
 			c.RequireReachedF("C03.R1", "every address of a gone pod whose teardown is confirmed is unbound in the same pass", fn, loopBody, s.Node,
-				"bound && !podListed && ("+base+".PodUID == \"\" || (finalStatusOK && finalStatus == deleted))", func(e *FactEngine) (*Formula, error) {
+				"bound && !podListed && ("+base+".PodUID == \"\" || (runtimeEntryOK && finalStatusOK && finalStatus == deleted))", func(e *FactEngine) (*Formula, error) {
 					uidEmpty, err := e.Expr(base+`.PodUID == ""`, s.Node.Pos())
 					if err != nil {
 						return nil, err
@@ -127,7 +127,9 @@ func c03R1(c *Ctx) {
 					stDel := e.eqAtom(objID(finStatus), "#"+deleted, []string{objID(finStatus)})
 					notListed := mkNot(e.Cond(identFor(info, podOK)))
 					fin := e.Cond(identFor(info, finOK))
-					return mkAnd(bound, mkAnd(notListed, mkOr(uidEmpty, mkAnd(fin, stDel)))), nil
+					// the final status exists only for a UID the runtime record has an entry for
+					entry := e.Cond(identFor(info, rtOK))
+					return mkAnd(bound, mkAnd(notListed, mkOr(uidEmpty, mkAnd(entry, mkAnd(fin, stDel))))), nil
 				})
 		}
 	}
